@@ -315,7 +315,10 @@ def replay(path):
     return 1 if (out.oracle_violations or out.mismatches) else 0
 
 
-SCOPE = "see coq/theories/C03/STATUS.md"
+SCOPE = ("partial: proved - per-step rounding lemmas, whole-swap never-above / never-below the exact curve in the path form (C03_exact_in_vs_ideal, "
+         "C03_exact_out_vs_ideal; token1-in with an explicit slack of 1/2*10^-36 token per step, refutation witness included), estimate = execution "
+         "(+ refuted converse); missing - the lower half of the rounding sandwich and there-and-back (kept as C03_error_bounded_full / "
+         "C03_there_and_back_full inside C03_full; checked on the implementation by the oracle)")
 EXPLANATION = ("Theorems over the Gallina model CL/{CLMath,CLSwap}.v (function-by-function transcription of swaps.go, swapstrategy/*.go, math/math.go) and the exact "
                "rational walk CL/Ideal.v; the model is tied to /repo by running the real swap route (full app) on generated pool states and comparing every response, "
                "the pool after every operation and the estimate queries; an independent oracle walks the exact curve with python Fractions through the "
